@@ -19,6 +19,9 @@ type Cfg struct {
 	TrOneIn     int // wrap a sub-expression in (tr id …) with probability 1/TrOneIn (0 = never)
 	MaxStmts    int // statements per body (default 3)
 	RetCloOneIn int  // a defn returns a closure with probability 1/RetCloOneIn (default 4)
+	Recursion   bool // self-recursive defn with a decreasing counter (tail and non-tail)
+	Alias       bool // (def gN fK) aliases
+	Subst       bool // (str (substitute #x)) on lazy formals
 	Canary      bool // inside functions, sometimes read a pool name that is not lexically visible (dynamic-scope canary)
 }
 
@@ -30,6 +33,7 @@ type G struct {
 	// statistics for the non-triviality rules
 	TopFns []FnSig
 	NCanary int
+	NRec, NTailRec, NAlias, NSubst, NSelfAnywhere int
 	NClosures, NShadow, NLoops, NBreaks, NLazyParams, NForce, NVariadic, NInj, NTry, NHigher int
 }
 
@@ -40,6 +44,7 @@ type fnsig struct {
 	ret  int // 0: returns int; k>0: returns a closure of arity k-1
 	lazy []bool
 	clo  []bool // parameter i is a closure of arity 1
+	rec  bool   // first parameter is the recursion counter
 }
 
 // FnSig is the exported view of a global function signature.
@@ -60,6 +65,8 @@ type sc struct {
 	loopVars                       []string // loop variables of enclosing loops (not assigned in bodies: keeps loops finite)
 	inFn                           bool
 	inLoop                         bool // lexically inside a for body of the current function
+	self                           *fnsig // the enclosing recursive function (counter n visible), nil otherwise
+	selfLeft                       *int   // remaining budget of extra self-call sites
 }
 
 func (s *sc) clone() *sc {
@@ -162,6 +169,21 @@ func (g *G) intE(s *sc, d int) *N {
 }
 
 func (g *G) intE0(s *sc, d int) *N {
+	if s.self != nil && *s.selfLeft > 0 && d > 0 && g.r(6) == 0 {
+		// a guarded self call at an arbitrary (generally non-tail) position
+		*s.selfLeft--
+		f := s.self
+		self := []*N{Var(f.name), Call("-", Var("n"), Int(1))}
+		for i := 1; i < f.n; i++ {
+			if f.clo[i] {
+				self = append(self, g.cloE(s.arg(), d-1))
+			} else {
+				self = append(self, g.intE(s.arg(), d-1))
+			}
+		}
+		g.NSelfAnywhere++
+		return &N{K: "cond", A: []*N{Call("<=", Var("n"), Int(0)), g.lit(), &N{K: "app", A: self}}}
+	}
 	if d <= 0 || g.r(4) == 0 {
 		if g.C.Canary && s.inFn && g.r(10) == 0 {
 			p := g.pool()
@@ -182,6 +204,10 @@ func (g *G) intE0(s *sc, d int) *N {
 			return &N{K: "inj", I: g.trn}
 		}
 		if len(s.lazy) > 0 && g.r(2) == 0 {
+			if g.C.Subst && g.r(4) == 0 {
+				g.NSubst++
+				return Call("len", &N{K: "subst", S: s.lazy[g.r(len(s.lazy))]})
+			}
 			g.NForce++
 			return (&N{K: "force", S: s.lazy[g.r(len(s.lazy))]})
 		}
@@ -262,6 +288,7 @@ func (g *G) intE0(s *sc, d int) *N {
 		ns.loops = nil
 		ns.inLoop = false
 		ns.inFn = true
+		ns.self = nil
 		for i := 0; i < np; i++ {
 			p := g.pool()
 			if contains(fn.Ps, p) {
@@ -342,6 +369,10 @@ func (g *G) callFn(s0 *sc, d int, ret int) *N {
 	}
 	a := []*N{Var(f.name)}
 	for i := 0; i < n; i++ {
+		if i == 0 && f.rec {
+			a = append(a, Int(int64(g.r(4))))
+			continue
+		}
 		if i < len(f.clo) && f.clo[i] {
 			a = append(a, g.cloE(s, d-1))
 			continue
@@ -355,7 +386,7 @@ func (g *G) callFn(s0 *sc, d int, ret int) *N {
 func (g *G) cloE(s *sc, d int) *N {
 	var cands []string
 	for _, f := range s.fns {
-		if f.n == 1 && !f.vr && f.ret == 0 && (len(f.lazy) == 0 || !f.lazy[0]) && (len(f.clo) == 0 || !f.clo[0]) {
+		if f.n == 1 && !f.vr && f.ret == 0 && !f.rec && (g.C.Lazy || len(f.lazy) == 0 || !f.lazy[0]) && (len(f.clo) == 0 || !f.clo[0]) {
 			cands = append(cands, f.name)
 		}
 	}
@@ -379,8 +410,14 @@ func (g *G) lambda1(s *sc, d int) *N {
 	ns.loops = nil
 	ns.lazy = nil
 	ns.inFn = true
-	ns.ints = appendU(ns.ints, p)
+	ns.self = nil
 	g.NClosures++
+	if g.C.Lazy && g.r(3) == 0 {
+		ns.lazy = appendU(ns.lazy, "#"+p)
+		g.NLazyParams++
+		return &N{K: "fn", Ps: []string{"#" + p}, A: g.stmts(ns, d-1, true)}
+	}
+	ns.ints = appendU(ns.ints, p)
 	return &N{K: "fn", Ps: []string{p}, A: g.stmts(ns, d-1, true)}
 }
 
@@ -611,7 +648,55 @@ func (g *G) stmt(s *sc, d int) *N {
 		ns.loops = nil
 		ns.inLoop = false
 		ns.inFn = true
+		ns.self = nil
 		sig := fnsig{name: name}
+		if g.C.Recursion && g.r(3) == 0 {
+			fn.Ps = []string{"n"}
+			sig.clo, sig.lazy, sig.rec = []bool{false}, []bool{false}, true
+			g.fnParams(fn, s, ns, &sig, true)
+			if fn.Var { // keep recursive functions fixed-arity
+				fn.Var = false
+				fn.Ps = fn.Ps[:len(fn.Ps)-1]
+				sig.clo, sig.lazy = sig.clo[:len(fn.Ps)], sig.lazy[:len(fn.Ps)]
+				g.NVariadic--
+			}
+			sig.name, sig.n = name, len(fn.Ps)
+			left := 2
+			selfSig := sig
+			ns.self, ns.selfLeft = &selfSig, &left
+			self := []*N{Var(name), Call("-", Var("n"), Int(1))}
+			for i := 1; i < len(fn.Ps); i++ {
+				if sig.clo[i] {
+					self = append(self, Var(fn.Ps[i]))
+				} else {
+					self = append(self, g.intE(ns.arg(), d-2))
+				}
+			}
+			var rec *N = &N{K: "app", A: self}
+			g.NRec++
+			switch g.r(6) {
+			case 0:
+				rec = Call("+", g.intE(ns.arg(), d-2), rec) // non-tail
+			case 1:
+				rec = &N{K: "let", Ps: []string{g.pool()}, A: []*N{g.intE(ns, d-2), rec}}
+				g.NTailRec++
+			case 2:
+				rec = &N{K: "begin", A: []*N{g.intE(ns, d-2), rec}}
+				g.NTailRec++
+			case 3:
+				rec = &N{K: "and", A: []*N{Int(1), rec}}
+				g.NTailRec++
+			default:
+				g.NTailRec++
+			}
+			body := g.stmts(ns, d-2, false)
+			body = append(g.strictProbes(fn), body...)
+			fn.A = append(body, &N{K: "cond", A: []*N{Call("<=", Var("n"), Int(0)), g.intE(ns, d-2), rec}})
+			sig.n = len(fn.Ps)
+			g.NClosures++
+			s.fns = append(s.fns, sig)
+			return fn
+		}
 		g.fnParams(fn, s, ns, &sig, true)
 		if g.C.HigherOrder && g.r(max(g.C.RetCloOneIn, 2)+2*btoi(g.C.RetCloOneIn == 0)) == 0 {
 			// returns a closure of arity 1 that captures this activation
@@ -621,6 +706,7 @@ func (g *G) stmt(s *sc, d int) *N {
 		} else {
 			fn.A = g.stmts(ns, d-1, true)
 		}
+		fn.A = append(g.strictProbes(fn), fn.A...)
 		sig.n, sig.vr = len(fn.Ps), fn.Var
 		g.NClosures++
 		s.fns = append(s.fns, sig)
@@ -628,11 +714,22 @@ func (g *G) stmt(s *sc, d int) *N {
 	case 3: // def closure variable
 		g.fnn++
 		name := fmt.Sprintf("g%d", g.fnn)
+		if g.C.Alias && len(s.fns) > 0 && g.r(3) == 0 {
+			f := s.fns[g.r(len(s.fns))]
+			if f.name[0] == 'f' || f.name[0] == 'g' {
+				g.NAlias++
+				al := f
+				al.name = name
+				s.fns = append(s.fns, al)
+				return &N{K: "def", S: name, A: []*N{Var(f.name)}}
+			}
+		}
 		fn := &N{K: "fn"}
 		ns := s.clone()
 		ns.loops = nil
 		ns.inLoop = false
 		ns.inFn = true
+		ns.self = nil
 		sig := fnsig{name: name}
 		g.fnParams(fn, s, ns, &sig, true)
 		fn.A = g.stmts(ns, d-1, true)
@@ -700,6 +797,7 @@ func (g *G) stmt(s *sc, d int) *N {
 			ns.loops = nil
 			ns.inLoop = false
 			ns.inFn = true
+		ns.self = nil
 			for len(fn.Ps) < f.n {
 				p := g.pool()
 				if contains(fn.Ps, p) {
@@ -770,4 +868,22 @@ func anyTrue(b []bool) bool {
 		}
 	}
 	return false
+}
+
+// strictProbes: with lazy formals in play, every function first reports each
+// strict integer formal through the trace function; an unevaluated argument
+// arriving in a strict position shows up as <lazy> in the trace.
+func (g *G) strictProbes(fn *N) []*N {
+	if !g.C.Lazy {
+		return nil
+	}
+	var out []*N
+	for i, p := range fn.Ps {
+		if p[0] == '#' || p[0] == 'k' || (fn.Var && i == len(fn.Ps)-1) {
+			continue
+		}
+		g.trn++
+		out = append(out, &N{K: "tr", I: g.trn, A: []*N{Var(p)}})
+	}
+	return out
 }
